@@ -223,6 +223,13 @@ def run_property(plan: Plan, tier: str, seed: int, contracts_mod_names, replay=N
             extra_results.extend(ex(tier, seed))
         except Exception:
             faults.append(f"extra prover {getattr(ex, '__name__', ex)}: {traceback.format_exc(limit=4)}")
+    by_fn = {}
+    for r in extra_results:
+        if pid in r.props:
+            by_fn.setdefault(r.fn, {}).setdefault(r.kind, 0)
+            by_fn[r.fn][r.kind] += 1
+    for f_, kinds_ in sorted(by_fn.items()):
+        fn_info.append({"function": f_, "obligations": sum(kinds_.values()), "by_kind": kinds_, "prover": "floatsym"})
     t_s = time.time()
     # only the obligations that carry this property (plus vacuity probes) are posed; the others belong to the checks of
     # the properties they are tagged with
@@ -293,8 +300,12 @@ def run_property(plan: Plan, tier: str, seed: int, contracts_mod_names, replay=N
         if o.kind in soft:
             undec.append(o)
             continue
-        if not any(o.fn == n.split("/")[0] for n in conc_names):
-            violations.append((o.name, None, "solver: sat\n" + (o.model or ""), "no-failing-input-found"))
+        if getattr(o, "witness", None):
+            # the prover produced a concrete input and evaluated the real function on it
+            violations.append((o.name, o.witness, (o.reason or "") + " | witness replayed on the real function: "
+                               + json.dumps(jsonable(o.witness))[:600], None))
+        elif not any(o.fn == n.split("/")[0] for n in conc_names):
+            violations.append((o.name, None, "solver: sat\n" + (o.model or "") + (o.reason or ""), "no-failing-input-found"))
     # --- bounded stand-ins
     bounded_reports = []
     for rep in run_isolated(plan.bounded, tier, seed, faults):
